@@ -9,7 +9,9 @@ CFG = {
             "(kittyKeyboard, sixel, unicodeCore, explicitWidth, colorTheme, inBandResize, osc176, sync) x DisableMouse "
             "(a rotating quarter of the 512 configurations in quick, all 512 in thorough) x random kitty keyboard masks (default or 1..31) x session shapes "
             "(start-up+Close; frames, SetAppID with ids incl. the original/empty/';'/non-ASCII, mouse shapes, titles, Suspend/Resume cycles with a cursor request pending, Close, second Close; "
-            "frames then Close triggered by a kill signal on the input goroutine; Close while suspended; SetAppID then input-goroutine panic in a child process); "
+            "between frames also Notify (OSC 9 / OSC 777), ClipboardPush, Bell; Close with the event queue filled to capacity and input pending (F53's region); "
+            "frames then Close triggered by a kill signal on the input goroutine, half of them with 2-9 keys pending (F13's region); Close while suspended; SetAppID then input-goroutine panic in a child process); "
+            "a session is judged only when start-up saw the fake terminal's answers (stored cursor style / app id / capability flags = configured ones; otherwise start-up is repeated, finally `incomplete`); "
             "the oracle compares with the fake terminal's own original cursor style / application id, not with what Vaxis stored; "
             "every frame line is also judged against the hypotheses Op.ok of the session theorem (admissible tokens, no hyperlink left open); "
             "non-trivial = a startup/setappid/suspend/resume/close line; distinct by case op list",
@@ -34,6 +36,8 @@ CFG = {
                   "Sessions: while suspended the application only resumes or shuts down (Resume without Suspend / rendering while suspended are skipped). "
                   "Validated by correspondence only: that the model's token lists are the real bytes (incl. the writer prologue/epilogue and the direct-mapped run-time writes at real values); the signal path "
                   "(Close on the input goroutine) and panic path (an injected malformed report makes handleSequence panic in a child process; recover -> Close -> re-panic) are also exercised dynamically. "
-                  "Which goroutine runs Close and whether it can block is C10's LTS. Real-time and OS behaviour (signals, console reset) not modelled.",
+                  "Which goroutine runs Close and whether it can block is C10's LTS: since round 3 (F13, F53, F210 repaired in /repo) C10.shutdown_completes / close_completes "
+                  "hold with no hypothesis on the queue, the consumer, signals or the calling goroutine, so every exit path reaches its end on every schedule; the join of that theorem with "
+                  "signal_path_is_close / panic_path_is_close / balanced is an argument in the notes, not a Lean theorem. Real-time and OS behaviour (signals, console reset) not modelled.",
     "assumptions": ["the fake console answers DA1 at once (Suspend's provoke-a-reply dance terminates)"],
 }
